@@ -71,18 +71,23 @@ for k, nm in enumerate(C05_OPS):
           desc='MT real policy mt_%s<float>: both operands any finite real terminal (all non-NaN, non-inf float patterns through the handle encoding)' % nm)
 
 for pess in (0, 1):
-    for k, tier, to in ((4, 'quick', 1800), (6, 'thorough', 7200)):
+    for k, tier, to in (((6 if pess else 5), 'quick', 2400), (7, 'thorough', 7200)):
         J('C06', 'c06_headers_%s_k%d' % ('pess' if pess else 'opt', k), 'c06_headers.cc', 'c06_headers',
-          units=['node_headers.cc', 'arrays.cc', 'error.cc', 'memstats.cc', 'statset.cc'], unit_defines={'MEDDLY_VERIF_NH_START': 4},
-          defines={'NSTEPS': k, 'PESS': pess}, gxx_units=['ALL'], gxx_extra=['-Wl,--allow-multiple-definition'], unwind=6, tier=tier, timeout=to,
-          covers=([3] + ([4] if pess else []) if k >= 4 else []),
-          desc='node_headers (%s), initial handle arrays of 4 entries (hook H5), history of %d nondet steps from {new node, link, unlink, cache, uncache} over handles 1..3; owner forest is a record with a stand-in deleteNode' % ('pessimistic' if pess else 'optimistic', k))
+          units=['node_headers.cc', 'arrays.cc', 'error.cc', 'memstats.cc', 'statset.cc'], unit_defines={'MEDDLY_VERIF_NH_START': 16},
+          defines={'NSTEPS': k, 'PESS': pess}, gxx_units=['ALL'], gxx_extra=['-Wl,--allow-multiple-definition'], unwind=8, unwindset={'__ll2c_memset.0': 18, '__ll2c_memzero_uint32_t.0': 18, '__ll2c_memzero_uint8_t.0': 18}, tier=tier, timeout=to, cut='counter_array12expand8to16|counter_array13expand16to32|address_array12expand32to64|node_headers16expandHandleListEv|node_headers16shrinkHandleListEv',
+          covers=([1, 3] + ([4, 6] if pess else [5, 7])),
+          desc='node_headers (%s), handle arrays fixed at 8 entries (growth/shrink of the handle list cut), history of %d nondet steps from {new node, link, unlink, cache, uncache} over handles 1..3; owner forest is a record with a stand-in deleteNode; counter/address widening and expandHandleList/shrinkHandleList are cut here (assume false; widening is covered by c06_counter_* / c06_address)' % ('pessimistic' if pess else 'optimistic', k))
 
 # ---------------------------------------------------------------- C01 / C02
-for k, tier, to in ((4, 'quick', 1800), (6, 'thorough', 7200)):
-    J('C01', 'c01_ut_k%d' % k, 'c01_ut.cc', 'c01_ut', units=['unique_table.cc', 'node_headers.cc', 'arrays.cc', 'node_storage.cc', 'error.cc', 'memstats.cc', 'statset.cc'],
-      unit_defines={'MEDDLY_VERIF_NH_START': 8}, defines={'NSTEPS': k, 'NITEMS': 4 if k <= 4 else 5}, gxx_units=['ALL'], unwind=(6 if k <= 4 else 7), unwindset={'__ll2c_memzero_uint32_t.0': 10, '__ll2c_memset.0': 10, '_ZN6MEDDLY12unique_table8subtable13convertToListEv.0': 18, '_ZN6MEDDLY12unique_table8subtable6expandEv.0': 10, '_ZNK6MEDDLY12unique_table8subtable8getItemsEPij.0': 18}, tier=tier, timeout=to, covers=[1, 2, 3] if k >= 4 else [2],
-      desc='unique_table::subtable with 4 (quick) / 5 (thorough) candidate nodes whose hashes (32-bit) and equivalence classes are symbolic; %d nondet steps of find-then-add / remove / find; growth threshold lowered to 1..3 so expand() and shrink() rehash inside the bound' % k)
+UT_UNITS = ['unique_table.cc', 'node_headers.cc', 'arrays.cc', 'node_storage.cc', 'error.cc', 'memstats.cc', 'statset.cc']
+for k, tier, to in ((3, 'quick', 1800), (4, 'thorough', 7200), (5, 'thorough', 14400)):
+    J('C01', 'c01_ut_k%d' % k, 'c01_ut.cc', 'c01_ut', units=UT_UNITS, unit_defines={'MEDDLY_VERIF_NH_START': 8}, defines={'NSTEPS': k, 'NITEMS': 4, 'MODE': 0}, gxx_units=['ALL'],
+      unwind=6, unwind_re={r'^__ll2c_mem': 10}, tier=tier, timeout=to, covers=[1, 2],
+      desc='unique_table::subtable (8 buckets) with 4 candidate nodes whose 32-bit hashes and equivalence classes are symbolic; %d nondet steps of find-then-add / remove / find' % k)
+for mode, nm in ((1, 'expand'), (2, 'shrink')):
+    J('C01', 'c01_ut_' + nm, 'c01_ut.cc', 'c01_ut', units=UT_UNITS, unit_defines={'MEDDLY_VERIF_NH_START': 8}, defines={'NSTEPS': 0, 'NITEMS': 4, 'MODE': mode}, gxx_units=['ALL'],
+      unwind=6, unwind_re={r'^__ll2c_mem': 10, r'subtable6shrinkEv\.1$': 18, r'subtable6expandEv\.[12]$': 18}, tier=('quick' if mode == 1 else 'thorough'), timeout=3600, covers=[3] + ([4] if mode == 2 else []),
+      desc='unique_table::subtable rehashing: 3 adds with the growth threshold lowered to 2 (8 -> 16 buckets)%s; 32-bit hashes of the pairwise inequivalent items symbolic; every stored item must be found afterwards' % (', then 2 removes (16 -> 8)' if mode == 2 else ''))
 for kind in (0, 1):
     for pat in range(1, 8):
         for opt in range(3):
@@ -99,6 +104,10 @@ J('PROBE', 'probe_f', 'probe_f.cc', 'probe_f', units=['ALL'], unit_defines={'MED
 for slot in range(4):
     J('C01', 'c01_hashstream_s%d' % slot, 'c01_hashstream.cc', 'c01_hashstream', units=['error.cc'], defines={'SLOT': slot}, unwind=4, timeout=600, covers=[], backend='z3',
       desc='real hash_stream from an arbitrary state (3 x 32-bit words) with slot == %d: pair push == two single pushes; byte-block push == word pushes' % slot)
+for k, nm in enumerate(C05_OPS):
+    J('C05', 'c05_mt_levels_' + nm, 'c05_kernels.cc', 'c05_mt_long_levels', units=['error.cc', 'edge_value.cc'], defines={'OP': k}, unwind=3, timeout=900, gxx_units=['ALL'],
+      backend=('z3' if nm in ('mult', 'div', 'mod') else 'sat'), gxx_exclude=['operations/arith_%s.cc' % nm], covers=[],
+      desc='MT integer policy mt_%s<long>: short cuts judged at a symbolic level L in 0..2 and point kind (diagonal / off-diagonal) with the reduction rules of the two operand forests chosen independently (identity-reduced terminals above level 0 denote identity patterns)' % nm)
 C05_EVP = ['plus', 'minus', 'mult', 'div', 'mod', 'max', 'min']
 for k, nm in enumerate(C05_EVP):
     J('C05', 'c05_evplus_' + nm, 'c05_evplus.cc', 'c05_evplus', units=['error.cc', 'edge_value.cc'], defines={'OP': k}, unwind=3, timeout=900, gxx_units=['ALL'],
@@ -115,7 +124,7 @@ for _j in list(JOBS):
                    'c19_int_roundtrip', 'c19_bool'):
         _k = _copy.copy(_j); _k.prop = 'C16'; _k.name = 'c16_' + _j.name; JOBS.append(_k)
 for root, cov in (('c19_edge_mt', [1, 2, 3, 4]), ('c19_edge_ev', [1, 2, 3])):
-    J('C19', root, 'c19_edges.cc', root, units=['forest.cc', 'error.cc', 'edge_value.cc'], unwind=3, timeout=900, gxx_units=['ALL'], covers=cov,
+    J('C19', root, 'c19_edges.cc', root, units=['forest.cc', 'policies.cc', 'error.cc', 'edge_value.cc'], unwind=3, timeout=900, gxx_units=['ALL'], covers=cov,
       desc='forest::getEdgeForValue / getValueForEdge (real forest.cc) on forest records of every labeling; value symbolic at full width (64-bit integers, all non-NaN floats, +infinity)')
 
 # C02 shares the codec / hash-agreement harness with C01
@@ -125,3 +134,27 @@ for _j in list(JOBS):
         if _j.name.startswith('c01_hash_'): _k.tier = 'thorough' if not (_j.tier == 'quick' and '_p7_' in _j.name) else 'quick'
         JOBS.append(_k)
 JOBS[:] = [j for j in JOBS if not (j.prop == 'C01' and j.name.startswith('c01_codec_') and j.tier == 'quick' and '_p2_' in j.name)]
+
+# ---------------------------------------------------------------- C12 (component level: storage x memory manager)
+MM_HDR = {'orig_grid_style': 'memory_managers/orig_grid.cc', 'array_grid_style': 'memory_managers/array_grid.cc', 'heap_style': 'memory_managers/heap_manager.cc', 'freelist_style': 'memory_managers/freelists.cc'}
+for mm in MM_HDR:
+    for opt in range(3):
+        for (pa, pb, pc) in ((7, 5, 1), (1, 5, 7), (5, 3, 6)):
+            J('C12', 'c12_store_%s_o%d_%d%d%d' % (mm.replace('_style', ''), opt, pa, pb, pc), 'c01_hash.cc', 'c12_store',
+              units=['unpacked_node.cc'] + sorted(MM_HDR.values()) + ['memory.cc', 'memstats.cc', 'error.cc', 'node_storage.cc', 'edge_value.cc'],
+              unit_defines={'MEDDLY_VERIF_ARENA': 48, 'MEDDLY_VERIF_HASHLOG': 1}, arena=('uint32_t', 48),
+              defines={'KIND': 0, 'PAT': pa, 'PATB': pb, 'PATC': pc, 'OPT': opt, 'MMSTYLE': mm}, gxx_units=['ALL'], gxx_exclude=['storage/simple.cc'], unwind=6, timeout=2400, mem_gb=20,
+              tier='quick' if ((pa, pb, pc) == (7, 5, 1) and (mm, opt) in (('orig_grid_style', 2), ('orig_grid_style', 1))) else 'thorough',
+              desc='node storage over %s, option %s: store A(shape %s), B(%s); release A; store C(%s); children symbolic terminals' % (
+                  mm, ['FULL_ONLY', 'SPARSE_ONLY', 'FULL_OR_SPARSE'][opt], format(pa, '03b')[::-1], format(pb, '03b')[::-1], format(pc, '03b')[::-1]))
+
+# ---------------------------------------------------------------- C10 (L1: terminal cases of the copy operations)
+for root, cov in (('c10_copy_mt', [2, 3, 4]), ('c10_copy_evplus', [1, 2]), ('c10_copy_evfast', [1, 2])):
+    J('C10', root, 'c10_copy.cc', root, units=['forest.cc', 'policies.cc', 'error.cc', 'edge_value.cc'], unwind=3, timeout=900, gxx_units=['ALL'], gxx_exclude=['operations/copy.cc'], covers=cov,
+      desc='terminal case (level 0) of the real copy implementation on operation/forest records; source value symbolic at full terminal / edge width, every source x target kind')
+C05_CMP = ['eq', 'ne', 'gt', 'ge', 'lt', 'le']
+for k, nm in enumerate(C05_CMP):
+    for root, cov in (('c05_cmp_mt', [1, 2, 3]), ('c05_cmp_evplus', [2]), ('c05_cmp_evstar', [])):
+        J('C05', '%s_%s' % (root, nm), 'c05_compare.cc', root, units=['error.cc', 'edge_value.cc'], defines={'CMP': k}, unwind=3, timeout=900, gxx_units=['ALL'],
+          gxx_exclude=['operations/compare.cc'], covers=cov,
+          desc='comparison policy %s from operations/compare.cc, both operands symbolic at full width (terminal handles / extended integers / non-NaN floats)' % nm)
